@@ -3,6 +3,5 @@ CONSTANTS
   Req = {r1, r2, r3}
   MarkBeforeSend = TRUE
 SPECIFICATION Spec
-CONSTRAINT Bound
 INVARIANTS NoStaleMark InFlightExact
 CHECK_DEADLOCK FALSE
